@@ -51,7 +51,7 @@ TOL = 1e-9
 
 def plan(tier, seed):
     n = 14
-    inst = 20 if tier == "quick" else 40
+    inst = 20 if tier == "quick" else 30
     specs = [{"name": "k%02d" % i, "kind": "kernel", "shard": i, "instances": inst, "timeout": 7000} for i in range(n)]
     specs.append({"name": "exch", "kind": "exchange", "shard": 90, "cases": 3000 if tier == "quick" else 40000, "timeout": 7000})
     specs.append({"name": "orch", "kind": "orch", "shard": 91, "runs": 4 if tier == "quick" else 40, "timeout": 7000})
@@ -279,7 +279,7 @@ def check_instance(I, rng, col, tier, inst_id, only_state=None):
             packed = pack_instance(I)
         col.violation(mech, msg, {"instance": packed, "state": x.tolist(), "extra": extra})
 
-    row_budget = 15000 if tier == "quick" else 25000
+    row_budget = 15000 if tier == "quick" else 12000
     rows_at_start = col.counters.get("base_rows", 0) + col.counters.get("interval_rows", 0)
     for x in states:
         if only_state is not None and x.tolist() != only_state:
